@@ -53,16 +53,19 @@ M = [
  ("lair-withdraw-gt", "C08", L+"whale_lair/src/commands.rs", 'if timestamp.minus_nanos(config.unbonding_period.u64()) >= bond.timestamp {', 'if timestamp.minus_nanos(config.unbonding_period.u64()) > bond.timestamp {', True),
  ("incentive-vfs-allowance-zero", "C11", PN+"incentive/src/funds_validation.rs", 'if allowance.allowance < amount {', 'if allowance.allowance.is_zero() {', True),
  ("collector-forward-reply-always", "C10", L+"fee_collector/src/commands.rs", 'reply_on: ReplyOn::Success,\n    };\n\n    messages.push(vaults_fee_collection_msg);', 'reply_on: ReplyOn::Always,\n    };\n\n    messages.push(vaults_fee_collection_msg);', True),
- ("distributor-claim-claimed-not-updated", "C09", L+"fee_distributor/src/commands.rs", 'claimed_fee.amount = claimed_fee.amount.checked_add(reward)?;', 'claimed_fee.amount = claimed_fee.amount.checked_add(Uint128::zero())?;', True),
+ ("distributor-claim-claimed-not-updated", "C09", L+"fee_distributor/src/commands.rs", 'claimed_fee.amount = claimed_fee.amount.checked_add(reward)?;', 'claimed_fee.amount = claimed_fee.amount.checked_add(cosmwasm_std::Uint128::zero())?;', True),
  ("incentive-claim-ge-emission", "C13", PN+"incentive/src/claim.rs", 'if user_reward_at_epoch > emission_per_epoch\n', 'if user_reward_at_epoch > emission_per_epoch.checked_add(Uint128::one())?\n', True),
  ("get-rewards-one-sided", "C13", PN+"incentive/src/queries/get_rewards.rs", '.saturating_sub(emitted_tokens)', '.saturating_sub(emitted_tokens).saturating_sub(Uint128::one())', True),
  ("router-min-receive-le", "C15", PN+"terraswap_router/src/contract.rs", 'if swap_amount < minimum_receive {', 'if swap_amount <= minimum_receive {', True),
- ("pair-swap-spread-args-swapped", "C15", PN+"terraswap_pair/src/commands.rs", 'swap::assert_max_spread(\n        belief_price,\n        max_spread,', 'swap::assert_max_spread(\n        max_spread,\n        belief_price,', False),
+ ("pair-swap-spread-args-swapped", "C15", PN+"terraswap_pair/src/commands.rs", 'swap::assert_max_spread(\n        belief_price,\n        max_spread,', 'swap::assert_max_spread(\n        max_spread,\n        belief_price,', True),
  ("pair-query-pool-no-fee-deduction", "C01", PN+"terraswap_pair/src/queries.rs", 'amount: asset.amount - protocol_fee,', 'amount: asset.amount,', True),
  ("compute-swap-spread-sub", "C02", PN+"terraswap_pair/src/helpers.rs", '(offer_amount * exchange_rate).saturating_sub(return_amount);', '(offer_amount * exchange_rate) - return_amount;', True),
  ("trio-ramp-min-blocks-dropped", "C04", PN+"stableswap_3pool/src/commands.rs", 'if ramp.future_block < env.block.height + MIN_RAMP_BLOCKS {', 'if ramp.future_block < env.block.height {', True),
  ("open-flow-fee-amount-wrong", "C12", PN+"incentive/src/execute/open_flow.rs", 'amount: vec![Coin {\n                        amount: flow_fee.amount,\n                        denom: flow_fee_denom,', 'amount: vec![Coin {\n                        amount: paid_amount,\n                        denom: flow_fee_denom,', True),
  # neutral edits: must stay silent
+ ("NEUTRAL-trio-owner-check-extracted", "C16", PN+"stableswap_3pool/src/commands.rs",
+  '    let mut config: Config = CONFIG.load(deps.storage)?;\n    if deps.api.addr_validate(info.sender.as_str())? != config.owner {\n        return Err(ContractError::Std(StdError::generic_err("unauthorized")));\n    }\n\n    if let Some(owner) = owner {\n        // validate address format',
+  '    let mut config: Config = CONFIG.load(deps.storage)?;\n    fn wwv_assert_owner(deps: cosmwasm_std::Deps, info: &MessageInfo, config: &Config) -> Result<(), ContractError> {\n        if deps.api.addr_validate(info.sender.as_str())? != config.owner {\n            return Err(ContractError::Std(StdError::generic_err("unauthorized")));\n        }\n        Ok(())\n    }\n    wwv_assert_owner(deps.as_ref(), &info, &config)?;\n\n    if let Some(owner) = owner {\n        // validate address format', False),
  ("NEUTRAL-vault-callback-eq-form", "C16", VN+"vault/src/execute/callback/mod.rs",
   'if info.sender != env.contract.address {\n        return Err(VaultError::ExternalCallback {});\n    }', 'if !(env.contract.address == info.sender) {\n        return Err(VaultError::ExternalCallback {});\n    }', False),
  ("NEUTRAL-lair-growth-rate-flipped", "C18", L+"whale_lair/src/helpers.rs", 'if growth_rate > Decimal::percent(100) {', 'if Decimal::percent(100) < growth_rate {', False),
